@@ -342,6 +342,10 @@ impl<'s> Rw<'s> {
             // R12: a formatted string is opaque text (no contract speaks about string contents)
             let (ma, mb) = br(mac.span());
             self.edit(ma, mb, "format_string()", "R12", &format!("format! -> opaque String at {}", self.loc(whole)));
+        } else if last == "lazy_static" && is_stmt {
+            // R19: the `lazy_static! { static ref RE: Regex = .. }` definition is dropped; `RE` is the prelude's
+            // regex stub whose contract is an uninterpreted function of the text (A-yaml)
+            self.edit(a, b, "", "R19", &format!("lazy_static! regex definition dropped at {}", self.loc(whole)));
         } else if last == "pin_mut" {
             let id = squash(&mac.tokens.to_string());
             self.pinned.insert(id.clone());
